@@ -367,11 +367,11 @@ PROP = Prop(
           "The counter is compared after every single step. Non-trivial = the history contains an add (Bloom family) / a removal (counting, quotient) / an eviction "
           "decision or expansion (cuckoo). Distinct by hash of (parameters, operations)."),
     workloads=[
-        Workload("bloom", wl_bloom, quick=500, thorough=40000),
+        Workload("bloom", wl_bloom, quick=500, thorough=120000),
         Workload("expanding", wl_expanding, quick=300, thorough=20000),
-        Workload("counting", wl_counting, quick=600, thorough=40000),
+        Workload("counting", wl_counting, quick=600, thorough=120000),
         Workload("cuckoo", wl_cuckoo, quick=250, thorough=6000),
-        Workload("quotient", wl_quotient, quick=400, thorough=30000),
+        Workload("quotient", wl_quotient, quick=400, thorough=90000),
     ],
     assumptions=["statistics formulas evaluated in 60-digit decimal arithmetic; either neighbour accepted when the exact value is within 1e-9 of an integer; "
                  "a completely set array (documented sentinel -1) is outside the formula and skipped",
